@@ -1,19 +1,19 @@
 #!/bin/bash
-# Offline setup: warm one cargo-kani target directory (dependencies compiled once) and clone it for the worker slots.
-set -e
+# Offline setup: warm one cargo-kani target directory (dependencies compiled once), verify the tool chain with the
+# Metadata-layout self-check harness, and clone the target directory for the worker slots.
 export CARGO_NET_OFFLINE=true FINDUTILS_VERIF_DIR="$(cd "$(dirname "$0")" && pwd)"
 CACHE="${FINDUTILS_VERIF_CACHE:-/root/.cache/findutils-verif}"
 REPO="${FINDUTILS_REPO:-/repo}"
 mkdir -p "$CACHE"
-cd "$REPO"
-if [ ! -d "$CACHE/slot00/kani" ]; then
-  cargo kani -Z stubbing --target-dir "$CACHE/slot00" --harness find::matchers::entry::verif_kani::metadata_layout_selfcheck --exact > "$CACHE/setup.log" 2>&1 \
-    || { tail -30 "$CACHE/setup.log"; echo "setup: cargo kani failed"; exit 1; }
+cd "$REPO" || exit 1
+cargo kani -Z stubbing --target-dir "$CACHE/slot00" --harness find::matchers::entry::verif_kani::metadata_layout_selfcheck --exact > "$CACHE/setup.log" 2>&1
+if ! grep -q "VERIFICATION:- SUCCESSFUL" "$CACHE/setup.log"; then
+  tail -30 "$CACHE/setup.log"; echo "setup: the self-check harness did not verify"; exit 1
 fi
-grep -q "VERIFICATION:- SUCCESSFUL" "$CACHE/setup.log" || { echo "setup: selfcheck harness did not verify"; exit 1; }
-for k in 01 02 03 04 05 06 07; do
+for k in 01 02 03; do
   [ -d "$CACHE/slot$k/kani" ] || cp -a "$CACHE/slot00" "$CACHE/slot$k"
 done
-# native binaries for the replayers
+# native binaries for the replayers; MIR dump target for mirsym (both are rebuilt lazily by the checks as well)
 cargo build --offline --quiet 2>/dev/null || true
+python3-vt -c "import z3" 2>/dev/null || { echo "setup: z3 python module missing in python3-vt"; exit 1; }
 echo "setup ok"
